@@ -100,7 +100,7 @@ Lemma step_push_link_gen s t k i we q p' :
   (forall lp, stage p' lp = stage (MP_push k) (PA_link i we q)) ->
   mclass p' = mclass (MP_push k) ->
   (we = true -> poker_pc p' (PA_probe q) = true) ->
-  forall l', gstep (lane s) t = Some l' -> Inv (set_mpc (set_lane s l') t p').
+  forall l', gstep (lane s) t = Some l' -> Inv (set_mpc (set_snap (set_lane s l') (link_id (snap s) i)) t p').
 Proof.
   intros I Vt Hpc Hlp Hl Hm Hq Hs Hg Hc Hp l' B.
   assert (SL : step (lane s) (AStep t) l') by (split; assumption).
@@ -110,11 +110,11 @@ Proof.
   destruct (T t) as (T1 & T2 & T3 & T4 & T5 & T6).
   assert (NH : token (lane s) <> Some (Some t)) by (apply not_holder; [exact T1 | rewrite Hlp; reflexivity]).
   assert (Em : mcl s1 = mcl s).
-  { unfold s1. rewrite (mcl_set_mpc (set_lane s _) t p'); [reflexivity|]. mproj. rewrite Hpc. exact Hc. }
+  { unfold s1. rewrite (mcl_set_mpc (set_snap (set_lane s _) _) t p'); [reflexivity|]. mproj. rewrite Hpc. exact Hc. }
   assert (IF : inflight (lane s1) = inflight (lane s)).
   { apply inflight_eq; subst s1; fr. intros w E. apply upd_other. congruence. }
   assert (Ep : pending s1 = pending s).
-  { unfold pending. rewrite IF. subst s1. mproj. lproj. unfold ids. rewrite map_id_link. reflexivity. }
+  { unfold pending. rewrite IF. subst s1. mproj. lproj. unfold ids. rewrite !map_id_link. reflexivity. }
   assert (Est : stage (mpcs s1 t) (pcs (lane s1) t) = stage (mpcs s t) (pcs (lane s) t)).
   { subst s1. mproj. lproj. rewrite !upd_same, Hpc, Hlp. apply Hg. }
   split; [|split; [|split]].
@@ -145,11 +145,14 @@ Proof.
   - rewrite Em. destruct (c_lane (mcl s)) eqn:CL.
     + destruct G as [I2 G2]. split.
       * apply (step_preserves (lane s) (AStep t) _ I2). exact SL.
-      * destruct G2. constructor; rewrite ?Em; subst s1; fr; assumption.
+      * pose proof (b_snap s G2) as BS. destruct G2. constructor; rewrite ?Em; subst s1; fr; try assumption.
+        rewrite BS. reflexivity.
     + destruct G as [r G]. exists r.
       pose proof (a_order s r G) as AO. pose proof (a_strand s r G) as AS. pose proof (a_dirty s r G) as AD.
+      pose proof (a_snap s r G) as ASn.
       destruct G. constructor; rewrite ?Em; subst s1; mproj; lproj; try assumption.
-      * unfold ids in *. rewrite map_id_link. exact AO.
+      * unfold ids in *. rewrite !map_id_link. exact AO.
+      * destruct (snap s) as [|e0 l0]; [exact ASn|]. cbn [link_id]. destruct (e_id e0 =? i); exact ASn.
       * rewrite link_nil_iff. assumption.
       * intros C Hne. rewrite link_nil_iff in Hne. destruct (AS C Hne) as [H|[H|[u H]]]; [left; exact H | right; left; exact H|].
         right. right. exists u. unfold poker in *. mproj. lproj. destruct (Z.eq_dec u t) as [->|N].
